@@ -36,7 +36,7 @@ theorem C14_distributed_deps_is_substep {B : Type} (dops : DOps α B) (de : DEnv
     stepGc dops de ncs conn lk (w, ini, acc) gcId =
       (ruleStep de.deps.rule dops.bat ⟨de.deps.eps, de.deps.priceThreshold, de.deps.tsPerHour, de.env.now, de.deps.interval⟩
           ⟨[gc], stations, cvs, depotBatteries w ((sdGet ini.gcBattery gcId).getD [])⟩ >>= fun r =>
-        .ok (mergeDeps w r.1 stations cvs, ini, sdUpdate acc r.2)) ∧
+        .ok (mergeDeps w (syncStations r.1) stations cvs, ini, sdUpdate acc r.2)) ∧
     ∀ w' ini' acc', stepGc dops de ncs conn lk (w, ini, acc) gcId = .ok (w', ini', acc') →
       ∃ vw' cmds g1, ruleStep de.deps.rule dops.bat (de.deps.env de.env.now)
           ⟨[gc], stations, cvs, depotBatteries w ((sdGet ini.gcBattery gcId).getD [])⟩ = .ok (vw', cmds) ∧
@@ -61,9 +61,9 @@ theorem C14_distributed_deps_is_substep {B : Type} (dops : DOps α B) (de : DEnv
       obtain ⟨rfl, rfl, rfl⟩ := h
       obtain ⟨g1, hg1, hid, _, _⟩ := ruleStep_single _ _ _ gc _ _ _ vw' cmds hr
       obtain ⟨hgm, hgid⟩ := gc?_some _ _ gc hgc
-      have hgcs : (mergeDeps w vw' stations cvs).gcs = (w.setGc g1).gcs := by
+      have hgcs : (mergeDeps w (syncStations vw') stations cvs).gcs = (w.setGc g1).gcs := by
         unfold mergeDeps
-        simp only [foldl_setBattery_gcs, hg1, List.foldl_cons, List.foldl_nil]
+        simp only [foldl_setBattery_gcs, syncStations_gcs, hg1, List.foldl_cons, List.foldl_nil]
         unfold SWorld.setGc
         simp only [writeBack_gcs]
       refine ⟨vw', cmds, g1, hr, hg1, rfl, rfl, ?_, ?_⟩
@@ -109,16 +109,16 @@ theorem C14_distributed_opps_is_substep {B : Type} (dops : DOps α B) (de : DEnv
     simp only [hg1, Except.ok.injEq, Prod.mk.injEq] at h
     obtain ⟨rfl, _, rfl⟩ := h
     refine ⟨vw', cmds, g1, hr, hg1, rfl, ?_, ?_, ?_⟩
-    · show g1 ∈ ((writeBack w vw' _ _).setGc g1).gcs
+    · show g1 ∈ ((writeBack w (syncStations vw') _ _).setGc g1).gcs
       unfold SWorld.setGc
       simp only [writeBack_gcs, List.mem_map]
       exact ⟨gc, hgm, by simp [hid]⟩
     · intro g' hg' hid'
-      have hg'' : g' ∈ ((writeBack w vw' (stations.map (·.id)) (cvs.map (·.id))).setGc g1).gcs := hg'
+      have hg'' : g' ∈ ((writeBack w (syncStations vw') (stations.map (·.id)) (cvs.map (·.id))).setGc g1).gcs := hg'
       rcases mem_setGc _ g1 g' hg'' with h | ⟨_, hne'⟩
       · exact h
       · exact absurd (hid'.trans (hgid.symm.trans hid.symm)) hne'
-    · show (writeBack w vw' _ _).batteries = _
+    · show (writeBack w (syncStations vw') _ _).batteries = _
       exact writeBack_batteries _ _ _ _
 
 /-- **Independence (frame).** Treating connector `gcId` leaves every other connector exactly as it was — loads,
